@@ -223,7 +223,11 @@ def generate(ctx):
                     # how the earlier calculation on the same object differs: another environment object or the
                     # same one edited in place, optionally another mass (assigned to the public attribute)
                     c['reuse_opts'] = {'same_env': rng.random() < 0.3,
-                                       'mass0': c['mass'] * 10 ** rng.uniform(-2, 2) if rng.random() < 0.3 else None}
+                                       'mass0': c['mass'] * 10 ** rng.uniform(-2, 2) if rng.random() < 0.3 else None,
+                                       # both calculations are handed the very same rest-time object
+                                       'same_rest': rng.random() < 0.3}
+                if lst == [0, 1, 24, 360] and rng.random() < 0.3:
+                    c['default_rest'] = True     # rest_times left to the documented default (0, 1, 24, 360)
                 u = rng.random()
                 if u < 0.12:
                     c['rest_container'] = 'tuple'
@@ -276,8 +280,13 @@ def _activate(case, rest, reference=False, target=None):
         mass0 = opts.get('mass0')
         s = A.Sample(_formula_text(case), mass0 if mass0 else case['mass'])
         env0 = A.ActivationEnvironment(fluence=f0, Cd_ratio=case['Cd_ratio'], fast_ratio=case['fast_ratio'])
+        if case.get('rest_container') == 'tuple':
+            rest = tuple(rest)
         try:
-            s.calculate_activation(env0, exposure=x0, rest_times=r0)
+            if opts.get('same_rest') and case.get('default_rest') and list(rest) == [0, 1, 24, 360]:
+                s.calculate_activation(env0, exposure=x0)
+            else:
+                s.calculate_activation(env0, exposure=x0, rest_times=rest if opts.get('same_rest') else r0)
             a0 = sum(v[0] for v in s.activity.values())
             asked = []
             if target is not None:
@@ -305,7 +314,10 @@ def _activate(case, rest, reference=False, target=None):
         env = A.ActivationEnvironment(fluence=case['fluence'], Cd_ratio=case['Cd_ratio'], fast_ratio=case['fast_ratio'])
     if case.get('rest_container') == 'tuple' and not reference:
         rest = tuple(rest)
-    s.calculate_activation(env, exposure=case['exposure'], rest_times=rest)
+    if case.get('default_rest') and not reference and list(rest) == [0, 1, 24, 360]:
+        s.calculate_activation(env, exposure=case['exposure'])
+    else:
+        s.calculate_activation(env, exposure=case['exposure'], rest_times=rest)
     return s
 
 
@@ -478,9 +490,10 @@ def check_decay(ctx, case):
         rest, target, A0)
     if case.get('reuse'):
         text += ' [Sample object re-used: earlier calculation at fluence %.4g, exposure %.4g h, rest_times %r%s had ' \
-                'answered decay_time for this level]' % (case['reuse'][0], case['reuse'][1], case['reuse'][2],
-                                                         ', other mass' if (case.get('reuse_opts') or {}).get('mass0')
-                                                         else '')
+                'answered decay_time for this level]' % (
+                    case['reuse'][0], case['reuse'][1],
+                    'the same object' if (case.get('reuse_opts') or {}).get('same_rest') else case['reuse'][2],
+                    ', other mass' if (case.get('reuse_opts') or {}).get('mass0') else '')
     if verdict == 'runtime-error':
         if sib == 'accepted':
             ctx.violation('%s: raises RuntimeError (%s) although the same request with rest_times=[0] returns an '
